@@ -711,6 +711,17 @@ call_cb:
 	cb_ret = TP_TASK_CB_CONTINUE;
 	ident = tptask->tp_data.ident;
 	while (transfered_size < data2transfer_size) { /* recv loop. */
+		if (0 == IO_BUF_TR_SIZE_GET(tptask->buf)) {
+			/* Window is full: recvfrom() with zero size drops the
+			 * packet. Tell the callback, packet stay queued. */
+			cb_ret = ((tp_task_pkt_rcvr_cb)tptask->cb_func)(tptask,
+			    ENOBUFS, NULL, tptask->buf, 0, tptask->udata);
+			if (TP_TASK_CB_CONTINUE != cb_ret)
+				return;
+			if (0 == IO_BUF_TR_SIZE_GET(tptask->buf))
+				goto call_cb_handle; /* Still no space. */
+			continue;
+		}
 		addrlen = sizeof(ssaddr);
 		ios = recvfrom((int)ident, IO_BUF_OFFSET_GET(tptask->buf),
 		    IO_BUF_TR_SIZE_GET(tptask->buf), MSG_DONTWAIT,
@@ -727,8 +738,7 @@ call_cb:
 			}
 			goto call_cb; /* Report about error. */
 		}
-		if (0 == ios)
-			break;
+		/* 0 == ios: empty packet, callback get it with the sender addr. */
 		transfered_size += (size_t)ios;
 		IO_BUF_USED_INC(tptask->buf, ios);
 		IO_BUF_OFFSET_INC(tptask->buf, ios);
